@@ -41,7 +41,7 @@ Section Mean.
   Variable m1 : Q -> Q -> Q.       (* int x nu(dx) of the untruncated measure: additive, signed *)
   Hypothesis m1_add : forall a b c, a <= b -> b <= c -> m1 a c == m1 a b + m1 b c.
   Hypothesis m1_proper : forall a a' b b', a == a' -> b == b' -> m1 a b == m1 a' b'.
-  Variables l r pinf : Q.
+  Variables l r pinf err : Q.
   Hypothesis l_le_r : l <= r.
   Hypothesis pinf_ge_1 : 1 <= pinf.
   Hypothesis pinf_left : - pinf <= l.       (* np.inf lies beyond the truncation bounds *)
@@ -70,15 +70,27 @@ Section Mean.
     rewrite (m1t_proper (- pinf) (- pinf) (- 0) 0) by lra. lra.
   Qed.
 
-  Theorem mean_identity_core rep fv a : (rep = 1 \/ rep = 2 \/ rep = 3 \/ rep = 4)%Z ->
-    a_tilde m1t pinf rep fv a + mu_tilde m1t pinf fv == mean_rate m1t pinf rep fv a.
+  (* the ZERO representation is only defined for jumps of finite variation (the conversions raise otherwise) *)
+  Definition valid_rep (fv : bool) (rep : Z) : Prop := fv = true \/ rep <> 1%Z.
+
+  Theorem mean_identity_core rep fv a : (rep = 1 \/ rep = 2 \/ rep = 3 \/ rep = 4)%Z -> valid_rep fv rep ->
+    a_tilde m1t pinf err rep fv a + mu_tilde m1t pinf fv == mean_rate m1t pinf rep fv a.
   Proof.
     pose proof split3 as S3. pose proof split2 as S2.
     assert (Em : m1t (-1 # 1) (1 # 1) == m1t (- (1)) 1) by (apply m1t_proper; reflexivity).
     assert (En : m1t (- pinf) (-1 # 1) == m1t (- pinf) (- (1))) by (apply m1t_proper; reflexivity).
-    intros [-> | [-> | [-> | ->]]]; destruct fv;
+    intros [-> | [-> | [-> | ->]]] [V|V]; try discriminate V; try (exfalso; apply V; reflexivity); destruct fv; try discriminate V;
       unfold a_tilde, mu_tilde, mean_rate, tilde_drift, canonical_drift, v_cut; cbn [Z.eqb Pos.eqb negb orb andb];
       cbv zeta; lra.
+  Qed.
+
+  (* outside the guard the generated conversions return the error value (the code raises ValueError) *)
+  Theorem zero_infinite_variation_is_error a :
+    canonical_drift m1t pinf err 1 false a = err /\ tilde_drift m1t pinf err 1 false a == err
+    /\ a_tilde m1t pinf err 1 false a == err /\ (forall rep, zero_drift m1t pinf err rep false a = err).
+  Proof.
+    unfold a_tilde, tilde_drift, zero_drift, canonical_drift; cbn [Z.eqb Pos.eqb negb orb andb]; cbv zeta.
+    repeat split; try reflexivity; lra.
   Qed.
 
   (* the first cumulant in terms of the measure restricted to [l, r] *)
@@ -94,42 +106,45 @@ Section Mean.
   (* representation invariance: each of the four conversions of LevyTriplet (generated from the source) maps the drift of
      ANY declared representation to the drift of its target representation WITHOUT changing the first cumulant; so the
      chain's mean does not depend on the representation the model happens to be declared in *)
-  Theorem conversions_preserve_mean rep fv a : (rep = 1 \/ rep = 2 \/ rep = 3 \/ rep = 4)%Z ->
-    mean_rate m1t pinf 3 fv (canonical_drift m1t pinf rep fv a) == mean_rate m1t pinf rep fv a
-    /\ mean_rate m1t pinf 1 fv (zero_drift m1t pinf rep fv a) == mean_rate m1t pinf rep fv a
-    /\ mean_rate m1t pinf 2 fv (center_drift m1t pinf rep fv a) == mean_rate m1t pinf rep fv a
-    /\ mean_rate m1t pinf 4 fv (tilde_drift m1t pinf rep fv a) == mean_rate m1t pinf rep fv a.
+  Theorem conversions_preserve_mean rep fv a : (rep = 1 \/ rep = 2 \/ rep = 3 \/ rep = 4)%Z -> valid_rep fv rep ->
+    mean_rate m1t pinf 3 fv (canonical_drift m1t pinf err rep fv a) == mean_rate m1t pinf rep fv a
+    /\ (fv = true -> mean_rate m1t pinf 1 fv (zero_drift m1t pinf err rep fv a) == mean_rate m1t pinf rep fv a)
+    /\ mean_rate m1t pinf 2 fv (center_drift m1t pinf err rep fv a) == mean_rate m1t pinf rep fv a
+    /\ mean_rate m1t pinf 4 fv (tilde_drift m1t pinf err rep fv a) == mean_rate m1t pinf rep fv a.
   Proof.
     pose proof split3 as S3.
     assert (Em : m1t (-1 # 1) (1 # 1) == m1t (- (1)) 1) by (apply m1t_proper; reflexivity).
     assert (En : m1t (- pinf) (-1 # 1) == m1t (- pinf) (- (1))) by (apply m1t_proper; reflexivity).
-    intros [-> | [-> | [-> | ->]]]; destruct fv;
+    intros [-> | [-> | [-> | ->]]] [V|V]; try discriminate V; try (exfalso; apply V; reflexivity); destruct fv; try discriminate V;
       unfold mean_rate, tilde_drift, zero_drift, center_drift, canonical_drift; cbn [Z.eqb Pos.eqb negb orb andb];
-      cbv zeta; repeat split; lra.
+      cbv zeta; repeat split; try (intros D; discriminate D); intros; lra.
   Qed.
 
   (* the unrepaired copula chain cut mu_tilde at the JOINT flag: for a finite-variation margin in an infinite-variation
      copula model the mean is off by exactly - int_{-1}^{1} x nu(dx) of that margin (and by + that amount the other way) *)
-  Theorem joint_flag_bias mid mass xs o md rep a : (o + 1 < length xs)%nat -> (rep = 1 \/ rep = 2 \/ rep = 3 \/ rep = 4)%Z ->
-    process_drift_v m1t pinf md rep true false a (compute_mu_h mid mass xs o) + mean_of_rates mid mass xs o
+  Theorem joint_flag_bias mid mass xs o md rep a : (o + 1 < length xs)%nat -> (rep = 2 \/ rep = 3 \/ rep = 4)%Z ->
+    process_drift_v m1t pinf err md rep true false a (compute_mu_h mid mass xs o) + mean_of_rates mid mass xs o
     == md + mean_rate m1t pinf rep true a - m1t (- (1)) 1
-    /\ process_drift_v m1t pinf md rep false true a (compute_mu_h mid mass xs o) + mean_of_rates mid mass xs o
+    /\ process_drift_v m1t pinf err md rep false true a (compute_mu_h mid mass xs o) + mean_of_rates mid mass xs o
     == md + mean_rate m1t pinf rep false a + m1t (- (1)) 1.
   Proof.
     intros Ho Hr. unfold process_drift_v. rewrite (mu_h_is_sum mid mass xs o Ho).
-    pose proof (mean_identity_core rep true a Hr) as T. pose proof (mean_identity_core rep false a Hr) as F.
+    assert (Hr4 : (rep = 1 \/ rep = 2 \/ rep = 3 \/ rep = 4)%Z) by tauto.
+    assert (Hn1 : rep <> 1%Z) by (destruct Hr as [-> | [-> | ->]]; discriminate).
+    pose proof (mean_identity_core rep true a Hr4 (or_introl eq_refl)) as T.
+    pose proof (mean_identity_core rep false a Hr4 (or_intror Hn1)) as F.
     pose proof split3 as S3. pose proof split2 as S2.
     unfold mu_tilde, v_cut in *. split; lra.
   Qed.
 
   (* with the identity mu_h == sum_k x_k q_k this is the statement about the simulated process *)
   Theorem mean_identity mid mass xs o md rep fv a :
-    (o + 1 < length xs)%nat -> (rep = 1 \/ rep = 2 \/ rep = 3 \/ rep = 4)%Z ->
-    process_drift m1t pinf md rep fv a (compute_mu_h mid mass xs o) + mean_of_rates mid mass xs o
+    (o + 1 < length xs)%nat -> (rep = 1 \/ rep = 2 \/ rep = 3 \/ rep = 4)%Z -> valid_rep fv rep ->
+    process_drift m1t pinf err md rep fv a (compute_mu_h mid mass xs o) + mean_of_rates mid mass xs o
     == md + mean_rate m1t pinf rep fv a.
   Proof.
-    intros Ho Hr. unfold process_drift. rewrite (mu_h_is_sum mid mass xs o Ho).
-    pose proof (mean_identity_core rep fv a Hr). lra.
+    intros Ho Hr Hv. unfold process_drift. rewrite (mu_h_is_sum mid mass xs o Ho).
+    pose proof (mean_identity_core rep fv a Hr Hv). lra.
   Qed.
 End Mean.
 
@@ -138,16 +153,16 @@ End Mean.
    where int |x| nu is infinite) *)
 Section MeanInfiniteVariation.
   Variable m1t : Q -> Q -> Q.
-  Variable pinf : Q.
+  Variables pinf err : Q.
   Theorem mean_identity_core_iv rep a : (rep = 2 \/ rep = 3 \/ rep = 4)%Z ->
-    a_tilde m1t pinf rep false a + mu_tilde m1t pinf false == mean_rate m1t pinf rep false a.
+    a_tilde m1t pinf err rep false a + mu_tilde m1t pinf false == mean_rate m1t pinf rep false a.
   Proof.
     intros [-> | [-> | ->]];
       unfold a_tilde, mu_tilde, mean_rate, tilde_drift, canonical_drift, v_cut; cbn [Z.eqb Pos.eqb negb orb andb];
       cbv zeta; change (- (1)) with (-1 # 1); change 1 with (1 # 1); lra.
   Qed.
   Theorem mean_identity_iv mid mass xs o md rep a : (o + 1 < length xs)%nat -> (rep = 2 \/ rep = 3 \/ rep = 4)%Z ->
-    process_drift m1t pinf md rep false a (compute_mu_h mid mass xs o) + mean_of_rates mid mass xs o
+    process_drift m1t pinf err md rep false a (compute_mu_h mid mass xs o) + mean_of_rates mid mass xs o
     == md + mean_rate m1t pinf rep false a.
   Proof.
     intros Ho Hr. unfold process_drift. rewrite (mu_h_is_sum mid mass xs o Ho).
@@ -160,15 +175,16 @@ Definition cm_ok (m : cmargin) : Prop :=
   (forall a b c, a <= b -> b <= c -> cm_m1 m a c == cm_m1 m a b + cm_m1 m b c)
   /\ (forall a a' b b', a == a' -> b == b' -> cm_m1 m a b == cm_m1 m a' b')
   /\ cm_l m <= cm_r m /\ 1 <= cm_pinf m
-  /\ (cm_o m + 1 < length (cm_xs m))%nat /\ (cm_rep m = 1 \/ cm_rep m = 2 \/ cm_rep m = 3 \/ cm_rep m = 4)%Z.
+  /\ (cm_o m + 1 < length (cm_xs m))%nat /\ (cm_rep m = 1 \/ cm_rep m = 2 \/ cm_rep m = 3 \/ cm_rep m = 4)%Z
+  /\ (cm_fv m = true \/ cm_rep m <> 1%Z).
 Theorem copula_margins_mean mid ms : Forall cm_ok ms ->
   Forall (fun m => cm_drift mid m + mean_of_rates mid (cm_mass m) (cm_xs m) (cm_o m)
                    == cm_md m + mean_rate (cm_m1t m) (cm_pinf m) (cm_rep m) (cm_fv m) (cm_a m)) ms.
 Proof.
-  intros H. apply Forall_impl with (2 := H). intros m (A & P & LR & P1 & Ho & Hr).
+  intros H. apply Forall_impl with (2 := H). intros m (A & P & LR & P1 & Ho & Hr & Hv).
   unfold cm_drift, process_drift_v, cm_m1t.
-  pose proof (mean_identity (cm_m1 m) A P (cm_l m) (cm_r m) (cm_pinf m) LR P1 mid (cm_mass m) (cm_xs m) (cm_o m) (cm_md m)
-                (cm_rep m) (cm_fv m) (cm_a m) Ho Hr) as E.
+  pose proof (mean_identity (cm_m1 m) A P (cm_l m) (cm_r m) (cm_pinf m) (cm_err m) LR P1 mid (cm_mass m) (cm_xs m) (cm_o m) (cm_md m)
+                (cm_rep m) (cm_fv m) (cm_a m) Ho Hr Hv) as E.
   unfold process_drift in E. exact E.
 Qed.
 
